@@ -887,7 +887,7 @@ for v in ([1, "two", 3.0], {"a": [1]}, {"a": {"b": 2}}):
 '''
 
 def run_script(src: str) -> str:
-    p = subprocess.run([sys.executable, "-c", src], env=vlib.ENV, text=True, stdout=subprocess.PIPE, stderr=subprocess.STDOUT, timeout=60)
+    p = subprocess.run([sys.executable, "-c", src], env=vlib.ENV, text=True, stdout=subprocess.PIPE, stderr=subprocess.STDOUT, timeout=600)
     return p.stdout.strip()
 
 
